@@ -16,6 +16,7 @@ import (
 	"github.com/kercylan98/vivid/internal/mailbox"
 	"github.com/kercylan98/vivid/internal/messages"
 	"github.com/kercylan98/vivid/internal/sugar"
+	"github.com/kercylan98/vivid/internal/verifhook"
 	"github.com/kercylan98/vivid/pkg/log"
 	"github.com/kercylan98/vivid/pkg/metrics"
 	"github.com/kercylan98/vivid/pkg/ves"
@@ -230,9 +231,11 @@ func (c *Context) ask(system bool, recipient vivid.ActorRef, message vivid.Messa
 
 	// Context 本身被构建后，其 ref 一定是有效的，此处错误可忽略。
 	agentRef, _ := NewAgentRef(c.ref)
+	verifhook.At("ctx.ask.new", c, nil)
 	futureIns := future.NewFuture[vivid.Message](c, askTimeout, func() {
 		c.system.removeFuture(agentRef)
 	})
+	verifhook.At("ctx.ask.register", c, futureIns)
 	c.system.appendFuture(agentRef, futureIns)
 	// 超时时间极短时，定时器可能在注册之前就已触发：其清理动作发生在注册之前，刚写入的注册项将永远不会被移除。
 	// 注册后若发现 Future 已完成，则在此补偿性地移除
@@ -240,6 +243,7 @@ func (c *Context) ask(system bool, recipient vivid.ActorRef, message vivid.Messa
 		c.system.removeFuture(agentRef)
 	}
 
+	verifhook.At("ctx.ask.enqueue", c, futureIns)
 	envelop := mailbox.NewEnvelop(system, agentRef.ref, recipient, message)
 	receiverMailbox := c.system.findMailbox(recipient.(*Ref))
 	receiverMailbox.Enqueue(envelop)
